@@ -1,0 +1,36 @@
+//go:build verif
+
+// Machine-checked contracts for package keyvalue (comment-only; read by /verif/cmd/govc).
+
+package keyvalue
+
+// ---- key listings are exactly what the versioned store enumerates (C05) ----
+// A successful keys-only range request has asked the store for the closed range
+// [NewTKey(keyBeg), NewTKey(keyEnd)] and returns one decoded key per type key the store returned, in the
+// store's order (so it agrees with the key-value variants, which enumerate the same range).
+
+//@ func Data.GetKeysInRange
+//@   prop C05
+//@   requires d != nil
+//@   safety_off
+//@   calls_havoc
+//@   modifies *
+//@   ghost asked bool = false
+//@   ghost nkeys int = 0
+//@   ghostset at "keys, err := db.KeysInRange(ctx, first, last)": asked = true
+//@   ghostset at "keyList := []string{}": nkeys = len(keys)
+//@   invariant loop 1: len(keyList) == rangeindex + 1 && nkeys == len(keys) && asked
+//@   ensures result1 == nil ==> asked && len(result0) == nkeys
+
+//@ func Data.GetKeys
+//@   prop C05
+//@   requires d != nil
+//@   safety_off
+//@   calls_havoc
+//@   modifies *
+//@   ghost asked bool = false
+//@   ghost nkeys int = 0
+//@   ghostset at "keys, err := db.KeysInRange(ctx, first, last)": asked = true
+//@   ghostset at "keyList := []string{}": nkeys = len(keys)
+//@   invariant loop 1: len(keyList) == rangeindex + 1 && nkeys == len(keys) && asked
+//@   ensures result1 == nil ==> asked && len(result0) == nkeys
